@@ -73,6 +73,7 @@ def run(pid, tier, seed, shard, nshards, out, examples=None):
     res = ctx.dump()
     res["failure"] = failure
     res["hyp_examples"] = state["calls"]
+    res["evaluations"] = max(res["evaluations"], state["calls"])
     with open(out, "w") as f:
         json.dump(res, f)
 
